@@ -303,10 +303,10 @@ example : Fair σfull := by
   exact ⟨21, by have : hfull.length = 22 := rfl; omega, by decide⟩
 
 /-- the measure at work on this run: after the fork exists (1 fork without chunks, 92); the
-definition of two chunks trades the first component for potential: (1, 74) → (0, 134);
-at the end (0, 82) -/
-example : mu (σfull 1) = (1, 92) ∧ mu (σfull 7) = (1, 74) ∧ mu (σfull 8) = (0, 134) ∧
-    mu (σfull 22) = (0, 82) := by decide
+definition of two chunks trades the first component for potential: (1, 78) → (0, 138);
+at the end (0, 98) -/
+example : mu (σfull 1) = (1, 92) ∧ mu (σfull 7) = (1, 78) ∧ mu (σfull 8) = (0, 138) ∧
+    mu (σfull 22) = (0, 98) := by decide
 
 /-- a state in which nothing has been done is not finished, and a progress event exists -/
 example : ¬ Finished (init gfull) := by intro h; exact absurd h.1 (by decide)
